@@ -134,6 +134,9 @@ let run toks =
                 Hashtbl.replace slots src ws';
                 wallet_from_account_key net wt acct seed priv in
               let given = (match rest with _ :: _ :: g :: _ -> g | _ -> "") in
+              (* flags A / P: the library of this run has fixes/C09-5 / fixes/C09-6 (the harness asked it) *)
+              let flags = (match rest with _ :: fl :: _ -> fl | _ -> "") in
+              let fixed w = set_lib_fixes w (S.contains flags 'A') (S.contains flags 'P') in
               let w = (match kind with
                   | "seed" | "mnem" | "mnemk" | "mnems" | "xprv" | "wkey" | "xprvs" | "xprvk" ->
                       wallet_from_seed net wt acct seed
@@ -150,7 +153,7 @@ let run toks =
                        | _ -> false)
                   | _ -> true) in
               (match w with
-               | Some w when text_ok w -> Hashtbl.replace slots slot w; emit ("C=ok" ^ snapshot slot w)
+               | Some w when text_ok w -> let w = fixed w in Hashtbl.replace slots slot w; emit ("C=ok" ^ snapshot slot w)
                | Some _ -> emit "C=BADKEY"
                | None -> emit "C=ERR")
           | ["K"; slot; acct; chg; wt; net; n] ->
@@ -164,7 +167,7 @@ let run toks =
               let (upath, full) = (match parts with
                   | "e" :: _ -> ([], false)
                   | "r" :: r | "s" :: r -> (List.map pelem_of_tok r, false)
-                  | "f" :: "m" :: r -> (List.map pelem_of_tok r, true)
+                  | "f" :: "m" :: r | "f" :: "M" :: r -> (List.map pelem_of_tok r, true)
                   | _ -> failwith "path") in
               apply slot "P" (OKeysForPath (upath, full, oz acct, z_of chg, z_of idx, wt_of wt, onet net, S O)) fmt_keys
           | ["B"; slot; acct; chg; idx; wt; net; n] ->
@@ -192,6 +195,7 @@ let run toks =
                 (fun w ks -> match ks with
                    | [k] -> path_s (root_of w) k.k_path ^ "|" ^ otext (key_wif_public k)
                    | _ -> "?")
+          | ["Q"; slot; a] -> apply slot "Q" (OAccount (z_of a)) fmt_keys
           | ["X"; slot; j] ->
               (* WalletKey.public() of the j-th key at key depth: no effect on the book *)
               let w = Hashtbl.find slots slot in
@@ -224,6 +228,8 @@ let dispatch = function
             | None -> "ERR"))
   (* multisig cosigner wallets are probed against the independent oracle only (no key book model for them) *)
   | "msrun" :: _ -> "PROBE"
+  (* configurations / arguments outside the key book model (single-key wallets, level_offset, cosigner_id): oracle only *)
+  | "probe" :: _ -> "PROBE"
   | _ -> "BADREQ"
 
 let () = main dispatch
